@@ -468,6 +468,9 @@ def run_probes(inv, net, probes):
     rd = roadnet.R()
     els = list(net.elements.values())
     inv.registry()
+    if inv.viol:  # dangling links: the other probes would only stumble over the same broken objects
+        inv.st["probes-skipped-after-dangling-links"] += 1
+        return
     for kind, e, a, b in probes:
         if kind == 0:  # look-ups at a point of a tape-chosen element
             el = els[e % len(els)]
